@@ -131,7 +131,11 @@ def halton_function(ctx: Context) -> None:
 
     want_index = n.rat(parse_expr(f"n_start + 1 + {IDX}"))
     index_vars = [nm for nm, v in benv.items() if n.rat(v).equals(want_index)]
-    count_ok = bool(counts) and all(n.rat(c).equals(n.rat(parse_expr("sample_size"))) for c in counts)
+    rets_ = returns_of(f)
+    out_nm = src(rets_[0].value) if rets_ and isinstance(rets_[0].value, ast.Name) else "sequence"
+    # zip(<result array>, range(..)) iterates the rows of the result: its length is sample_size by the allocation (checked below as R1.halton-shape)
+    count_ok = bool(counts) and all(n.rat(c).equals(n.rat(parse_expr("sample_size"))) or str(n.rat(c)) == str(n.rat(parse_expr(f"len({out_nm})"))) for c in counts) \
+        and any(n.rat(c).equals(n.rat(parse_expr("sample_size"))) for c in counts)
     ctx.check(len(index_vars) == 1 and count_ok, "R1.halton-indices", "halton:index-range", "halton() visits the consecutive indices n_start+1 .. n_start+sample_size",
               f"halton() iterates `for {src(lp.target)} in {src(lp.iter)}`", f, lp)
     ix = index_vars[0] if index_vars else (lp.target.id if isinstance(lp.target, ast.Name) else "index")
@@ -140,12 +144,27 @@ def halton_function(ctx: Context) -> None:
     ctx.check(used or not index_vars, "R1.halton-indices", "halton:index-used", "the digit expansion starts from the loop's sequence index", f"`{ix}` is not what the loop body expands", f, lp)
     rets0 = returns_of(f)
     out_name = src(rets0[0].value) if rets0 and isinstance(rets0[0].value, ast.Name) else "sequence"
-    stores = [s for s in ast.walk(lp) if isinstance(s, ast.Assign) and isinstance(s.targets[0], ast.Subscript) and src(s.targets[0].value) == out_name]
+    def root_of(t: ast.expr) -> ast.expr:
+        while isinstance(t, ast.Subscript):
+            t = t.value
+        return t
+
+    stores = []
+    for s_ in ast.walk(lp):
+        if isinstance(s_, ast.Assign) and isinstance(s_.targets[0], ast.Subscript):
+            tgt = at_iteration(s_.targets[0])  # `row[:] = v` with row bound to sequence[_I_] by the loop header reads `sequence[_I_][:] = v`
+            if src(root_of(tgt)) == out_name:
+                stores.append((s_, tgt))
     ok = len(stores) == 1
     if ok:
-        sl = stores[0].targets[0].slice
+        tgt = stores[0][1]
+        first = tgt
+        while isinstance(first.value, ast.Subscript):
+            first = first.value
+        sl = first.slice
         row = sl.elts[0] if isinstance(sl, ast.Tuple) else sl
-        ok = n.rat(at_iteration(row)).equals(n.rat(parse_expr(IDX)))
+        ok = n.rat(row).equals(n.rat(parse_expr(IDX)))
+    stores = [s_ for s_, _ in stores]
     ctx.check(ok, "R1.halton-indices", "halton:row-of-index", "index i is stored in row i-1-n_start (no gap, no overlap)",
               f"row store is `{src(stores[0]) if stores else '?'}`", f, stores[0] if stores else lp)
     # The digit loop must be driven by the running quotient itself: it stops when the quotient is exhausted, whatever the index.  A loop bounded by a
@@ -359,7 +378,8 @@ def rseq_scalars(ctx: Context) -> None:
             and all(isinstance(r.value, ast.Name) and r.value.id == x for r in rets) and not any(id(r) in in_loop for r in rets)
     else:
         # form B: the new value is compared with the current one inside the loop; equal -> leave with it, otherwise it becomes the current one
-        tests = [t for t in ast.walk(w) if isinstance(t, ast.If) and n.canon(t.test) in (n.canon(parse_expr(f"{y} == {x}")), n.canon(parse_expr(f"{x} == {y}")))]
+        eq_forms = {n.canon(parse_expr(f"{y} == {x}")), n.canon(parse_expr(f"{x} == {y}")), n.canon(parse_expr(f"not {y} != {x}")), n.canon(parse_expr(f"not {x} != {y}"))}
+        tests = [t for t in ast.walk(w) if isinstance(t, ast.If) and n.canon(t.test) in eq_forms]
         carry = [s for s in ast.walk(w) if isinstance(s, ast.Assign) and src(s.targets[0]) == x and src(s.value) == y]
         leaves = bool(tests) and all(isinstance(t.body[-1], (ast.Return, ast.Break)) for t in tests)
         ret_ok = all(isinstance(r.value, ast.Name) and r.value.id in (x, y) for r in rets)
@@ -373,6 +393,8 @@ def plumbing(ctx: Context) -> None:
     """sample_batch hands (batch_size, dims) to the generator and maps the unit cube to the box before snapping."""
     for q, helper in ((HS, "_halton"), (RS, "_r_sequence")):
         f = ctx.func(f"{q}.sample_batch")
+        if ctx.prog.lookup_method(f.cls, helper) is None:
+            raise AnalysisError(f"anchor vanished: {f.cls.name}.{helper} (the unit-cube generator the cursor rules are anchored in)")
         n = normaliser(ctx.prog, f)
         want = n.rat(parse_expr(
             f"digitize_data(search_space.parameters_bounds[0] + self.{helper}(batch_size, search_space.dims) * "
